@@ -87,6 +87,75 @@ def check_lemmas_exist(ctx, lemmas):
             pass
 
 
+def rtu_reopen_family(ctx):
+    """The RTU server keeps ONE session (one parser, one receive buffer) across port re-opens
+    (serial/server.rs): harness `rtu_reopen` runs the production SessionTask over consecutive
+    transports. Whatever arrived, once nothing more arrives the server must get past it: every port
+    session that ends with a framing error has consumed input, so after at most (buffered bytes)
+    re-opens a session ends by the transport (EOF) and not by the same framing error again - a server
+    that fails on the same stale state at every re-open never serves again (a livelock the watchdog
+    of a single session cannot see). No panic in any port session."""
+    r = ctx.rng
+    if ctx.replay and 'reopen_cases' in ctx.replay:
+        cases = ctx.replay['reopen_cases']
+    elif ctx.replay:
+        return {}
+    else:
+        cases = []
+        n = 1500 if ctx.quick() else 20000
+        while len(cases) < n:
+            groups = []
+            for _ in range(r.choice([1, 1, 2, 3, 4])):
+                data, _ = fg.stream(r, 'server', 'rtu')
+                chunks = fg.chunk(r, data)
+                groups.append(r.choice(['eof', 'err']) + ''.join(' ' + fg.hexs(c) for c in chunks))
+            # the harness opens at most 300 further port sessions and a framing error may consume as little as one byte per session (unknown function code:
+            # two): keep every history drainable within that bound
+            if sum(len(x) for g in groups for x in g.split()[1:]) // 2 > 280:
+                continue
+            cases.append(' / '.join(groups))
+    out = ctx.harness('rtu_reopen', cases, args=['--decode', r.choice(['min', 'max'])], shards=8, timeout=1500)
+    bad = 0
+    stats = {'port_sessions': 0, 'framing_error_ends': 0, 'max_reopens_to_drain': 0}
+    for c, o in zip(cases, out):
+        problem = None
+        if not o.startswith('calls='):
+            problem = 'panic or crash in a port session: ' + o[:120]
+        else:
+            ends = o.split(' ends=')[1].split(';')
+            stats['port_sessions'] += len(ends)
+            stats['framing_error_ends'] += sum(e.startswith('BadFrame') for e in ends)
+            stats['max_reopens_to_drain'] = max(stats['max_reopens_to_drain'], len(ends) - len(c.split('/')))
+            if not ends[-1].startswith('Io'):
+                problem = f'after the stream the RTU server never gets past a framing error: {len(ends) - len(c.split("/"))} re-opens with nothing arriving all end with {ends[-1]}'
+        if problem:
+            bad += 1
+            if bad <= 2:
+                def fails(cs):
+                    res = []
+                    for x in ctx.harness('rtu_reopen', cs, timeout=300):
+                        res.append(not x.startswith('calls=') or not x.split(' ends=')[1].split(';')[-1].startswith('Io'))
+                    return res
+
+                def cands(x):
+                    gs = x.split(' / ')
+                    for i in range(len(gs)):
+                        if len(gs) > 1:
+                            yield ' / '.join(gs[:i] + gs[i + 1:])
+                        parts = gs[i].split()
+                        for j in range(1, len(parts)):
+                            yield ' / '.join(gs[:i] + [' '.join(parts[:j] + parts[j + 1:])] + gs[i + 1:])
+                            if len(parts[j]) > 4:
+                                yield ' / '.join(gs[:i] + [' '.join(parts[:j] + [parts[j][:len(parts[j]) // 4 * 2]] + parts[j + 1:])] + gs[i + 1:])
+                                yield ' / '.join(gs[:i] + [' '.join(parts[:j] + [parts[j][len(parts[j]) // 4 * 2:]] + parts[j + 1:])] + gs[i + 1:])
+                small = vlib.shrink_batch(c, fails, cands, rounds=25, width=16)
+                ctx.violation('server.rtu-across-reopens.' + ('panic' if not o.startswith('calls=') else 'stale-state-livelock'),
+                              f'{problem} on port sessions: {small[:160]}', {'reopen_cases': [small], 'impl': o[:400], 'original_case': c})
+    ctx.oblige('correspondence:rtu-server-across-reopens-gets-past-every-input', bad == 0, f'{bad} failing histories')
+    stats['histories'] = len(cases)
+    return stats
+
+
 def run(ctx):
     ctx.translate([])
     lemmas = check_sites(ctx)
@@ -135,8 +204,10 @@ def run(ctx):
         missing = [k for k in need if classes.get(k, 0) < 5]
         if missing and bad == 0:
             ctx.oblige('generator-reaches-expected-classes', False, 'missing: ' + ','.join(missing))
+    reopen = rtu_reopen_family(ctx)
     ctx.coverage.update({
-        'evaluations': len(cases),
+        'rtu_server_across_reopens': reopen,
+        'evaluations': len(cases) + reopen.get('histories', 0),
         'distinct_nontrivial': len(set(c for c in cases if len(c.split()) >= 4 and len(''.join(c.split()[3:])) >= 16)),
         'rule': 'streams = concatenations of valid / mutated / badly framed Modbus frames or raw random bytes, cut into read chunks (all-at-once, byte-per-byte, random, header-edge, 260-byte-buffer-edge), a quarter with a scripted transmit side (writes taken in pieces / parked as by a peer that does not read, released or not), x role x framing x decode level; non-trivial = at least 8 stream bytes; distinct by full case text',
         'samples': [[c[:200], o] for c, o in list(zip(cases, out))[:5]],
